@@ -9,6 +9,56 @@ COMMON_ASSUME = [
 ]
 
 PROPS = {
+  'C06': {
+    'rule': 'cases = (N in 1..12 participants, R in 1..6 consecutive rounds on one barrier, generated yields before each arrival, main thread participating or not, W in 1..8, schedule bytes + tail); '
+            'non-trivial = the last arriver had to wait for a sleeper that had announced itself but not yet pushed itself on the sleep stack OR a participant entered round k+1 before all of round k had returned; distinct = hash of (program, schedule, seed)',
+    'assumptions': COMMON_ASSUME + ['exactly N participants use the barrier (documented precondition)'],
+    'stages': [
+      {'kind': 'replays', 'name': 'replay', 'variant': 'v0'},
+      {'kind': 'pbt', 'name': 'barrier-v0', 'variant': 'v0', 'prop': 6, 'cases': (1200, 20000), 'prog_max': 96, 'sched_max': 320},
+      {'kind': 'pbt', 'name': 'barrier-v2', 'variant': 'v2', 'prop': 6, 'cases': (400, 10000), 'prog_max': 96, 'sched_max': 384},
+    ],
+  },
+  'C07': {
+    'rule': 'cases = (N from {0,1,2,3,4,7,8,9,2^k-1,2^k,2^k+1,...,INT_MAX} or dense 0..40; for N>48 the public state word is preset to N-d decrements and the last d<=48 are executed; K in 0..6 waiters with generated delays, D decrementer threads, optional held-back phase with fewer than N decrements; W in 1..8; schedule); '
+            'non-trivial = a waiter really announced itself and blocked AND (the final decrement had to wait for its enqueue OR a waiter resumed on another worker); distinct = hash of (program, schedule, seed)',
+    'assumptions': COMMON_ASSUME + ['N <= INT_MAX because myth_join_counter_init takes an int', 'large N: state preset through the public struct field to a state reachable by real decrements'],
+    'stages': [
+      {'kind': 'replays', 'name': 'replay', 'variant': 'v0'},
+      {'kind': 'pbt', 'name': 'joincounter-v0', 'variant': 'v0', 'prop': 7, 'cases': (1200, 20000), 'prog_max': 64, 'sched_max': 320},
+      {'kind': 'pbt', 'name': 'joincounter-v2', 'variant': 'v2', 'prop': 7, 'cases': (400, 10000), 'prog_max': 64, 'sched_max': 384},
+    ],
+  },
+  'C08': {
+    'rule': 'cases = (single-slot mailbox between one producer and one consumer following the documented protocol: status word with FULL and SLEEPING bits changed by CAS, then uncond_wait / uncond_signal; 1..30 items, generated yields, who is created first, main thread as producer/consumer/neither; W in 1..8; schedule); '
+            'non-trivial = a wait happened AND (a signal was issued before the waiter had suspended (signal spun) OR the waiter resumed on another worker); distinct = hash of (program, schedule, seed)',
+    'assumptions': COMMON_ASSUME + ['one waiter per uncondition variable at a time (documented)'],
+    'stages': [
+      {'kind': 'replays', 'name': 'replay', 'variant': 'v0'},
+      {'kind': 'pbt', 'name': 'uncond-v0', 'variant': 'v0', 'prop': 8, 'cases': (1200, 20000), 'prog_max': 16, 'sched_max': 384},
+      {'kind': 'pbt', 'name': 'uncond-v2', 'variant': 'v2', 'prop': 8, 'cases': (400, 10000), 'prog_max': 16, 'sched_max': 384},
+    ],
+  },
+  'C09': {
+    'rule': 'cases = (single-slot mailbox on a full/empty lock: P,C in 1..5, items, quotas, yields, optional inspector thread using plain felock_lock/unlock; W in 1..8; schedule); '
+            'non-trivial = a participant blocked AND (a waiter resumed on another worker OR the token moved inside the enqueue..unlock window); distinct = hash of (program, schedule, seed)',
+    'assumptions': COMMON_ASSUME,
+    'stages': [
+      {'kind': 'replays', 'name': 'replay', 'variant': 'v0'},
+      {'kind': 'pbt', 'name': 'felock-v0', 'variant': 'v0', 'prop': 9, 'cases': (1000, 16000), 'prog_max': 64, 'sched_max': 320},
+      {'kind': 'pbt', 'name': 'felock-v2', 'variant': 'v2', 'prop': 9, 'cases': (300, 8000), 'prog_max': 64, 'sched_max': 384},
+    ],
+  },
+  'C14': {
+    'rule': 'cases = (K in 1..16 callers on 1..3 once-controls, init routine kind per control in {plain, yields, locks a mutex, creates+joins a thread}, generated delays and repeat calls; W in 1..8; schedule); '
+            'non-trivial = at least one caller found the control in progress and had to wait; distinct = hash of (program, schedule, seed)',
+    'assumptions': COMMON_ASSUME,
+    'stages': [
+      {'kind': 'replays', 'name': 'replay', 'variant': 'v0'},
+      {'kind': 'pbt', 'name': 'once-v0', 'variant': 'v0', 'prop': 14, 'cases': (1200, 20000), 'prog_max': 64, 'sched_max': 320},
+      {'kind': 'pbt', 'name': 'once-v2', 'variant': 'v2', 'prop': 14, 'cases': (400, 10000), 'prog_max': 64, 'sched_max': 384},
+    ],
+  },
   'C01': {
     'rule': 'cases = (random spawn tree of <=64 (quick) / 400 (thorough) threads; per child: creation call (myth_create, create_ex with NULL attr, create_ex with an attribute object prepared by the public functions on pre-filled memory incl. custom stack size and child_first 0/1, create_ex with NULL id), join permutation and placement, yields, return vs myth_exit from nested frames; W in 1..8 (16 thorough); schedule bytes + seeded tail); '
             'non-trivial = at least one join really blocked (the joiner reached the block point) or a thread/joiner was resumed on another worker; distinct = hash of (decoded tree, schedule, seed)',
